@@ -547,6 +547,30 @@ pub fn corpus_f4() -> (CmdWorld, Project) {
     (w, p)
 }
 
+/// witness of C13/cmd/regenerate-exemptions-twice-changes-config.toml: two in-graph versions of
+/// one crate joined by a delta audit, an exemption for the later one only
+pub fn corpus_regen_exemptions() -> (CmdWorld, Project) {
+    let v = |s: &str| VetVersion::parse(s).unwrap();
+    let graph = gen::GGraph {
+        pkgs: vec![
+            gen::GPkg { name: "alfa".into(), version: v("1.0.0"), source: 0, member: true, deps: vec![(1, 1), (2, 1)] },
+            gen::GPkg { name: "bravo".into(), version: v("3.0.0"), source: 1, member: false, deps: vec![] },
+            gen::GPkg { name: "bravo".into(), version: v("5.0.0"), source: 1, member: false, deps: vec![] },
+        ],
+        resolve_order: vec![0, 1, 2],
+        member_order: vec![0],
+    };
+    let mut audits = AuditsFile { criteria: SortedMap::new(), wildcard_audits: SortedMap::new(), audits: SortedMap::new(), trusted: SortedMap::new() };
+    audits.audits.insert("bravo".into(), vec![AuditEntry { who: vec![], criteria: vec![gen::sp(SAFE_TO_DEPLOY.to_owned())], kind: AuditKind::Delta { from: v("3.0.0"), to: v("5.0.0") }, importable: true, notes: None, aggregated_from: vec![], is_fresh_import: false }]);
+    let mut config = ConfigFile { cargo_vet: Default::default(), default_criteria: get_default_criteria(), imports: SortedMap::new(), policy: Default::default(), exemptions: SortedMap::new() };
+    config.exemptions.insert("bravo".into(), vec![ExemptedDependency { version: v("5.0.0"), criteria: vec![gen::sp(SAFE_TO_DEPLOY.to_owned())], suggest: true, notes: None }]);
+    let mut remote = Remote::default();
+    remote.registry.insert("bravo".into(), vec![RegVersion { version: semver::Version::new(3, 0, 0), user: Some(1), day: 0 }, RegVersion { version: semver::Version::new(5, 0, 0), user: Some(1), day: 1 }]);
+    let w = CmdWorld { graph, config, audits, remote };
+    let p = setup_project(&w);
+    (w, p)
+}
+
 pub fn exec_history(r: &mut Report, rng: &mut Rng, idx: u64, mut w: CmdWorld, p: Project, fixed: Option<Vec<&'static [&'static str]>>) {
     r.evaluations += 1;
     let prop = r.prop.clone();
@@ -677,9 +701,15 @@ pub fn run(r: &mut Report) {
     let only: Option<u64> = std::env::var("VERIF_ONLY_CMD").ok().and_then(|s| s.parse().ok());
     let base = r.evaluations;
     if shard == 0 && only.is_none() && r.prop == "C13" {
-        let (w, p) = corpus_f4();
+        // the witnesses of the known findings, one fresh project per command
+        for cmd in [&["prune"][..], &["regenerate", "imports"][..], &["regenerate", "exemptions"][..]] {
+            let (w, p) = corpus_f4();
+            let mut crng = Rng::new(1);
+            exec_history(r, &mut crng, 0, w, p, Some(vec![cmd]));
+        }
+        let (w, p) = corpus_regen_exemptions();
         let mut crng = Rng::new(1);
-        exec_history(r, &mut crng, 0, w, p, Some(vec![&["prune"], &["regenerate", "imports"]]));
+        exec_history(r, &mut crng, 0, w, p, Some(vec![&["regenerate", "exemptions"]]));
     }
     for i in 0..n {
         let mut crng = rng.fork();
